@@ -111,9 +111,13 @@ SetRules == (pc = "run" /\ si = 1 /\ i = 0) => \A k \in 1..NM : \A we \in BOOLEA
     /\ ((Keep(Fs, m, FALSE) /\ Active(Fs, KEvent) = {}) => Keep(Fs, m, TRUE))
     /\ Keep(Rev(Fs), m, we) = Keep(Fs, m, we)                                 \* the order of the filters is irrelevant
     /\ (Keep(Fs, m, FALSE) => (Active(Fs, KPos) = {} \/ \E j \in Active(Fs, KPos) : Match(Fs[j], m)))
-StreamOrder == pc \in {"run", "done"} =>
-    /\ \A k \in 1..(Len(out) - 1) : out[k] < out[k + 1]
-    /\ {out[k] : k \in 1..Len(out)} = {p \in KeptPos(Fs, Msgs, S) : p <= i}
+\* step by step: the message just handled is the last forwarded one iff it is kept (the whole sequence is compared with
+\* FwdSeq once per stream in Closed)
+StreamOrder == (pc \in {"run", "done"} /\ i > 0) =>
+    LET kept == Keep(Fs, Msgs[S[i]], FALSE) IN
+    /\ (kept => (Len(out) > 0 /\ out[Len(out)] = i))
+    /\ (~kept => (Len(out) = 0 \/ out[Len(out)] < i))
+    /\ (Len(out) > 1 => out[Len(out) - 1] < out[Len(out)])
 Counts == pc \in {"run", "done"} => (passed = Len(out) /\ passed + filtered = i)
 Closed == pc = "done" => (out = FwdSeq(Fs, Msgs, S) /\ i = Len(S))
 
